@@ -130,16 +130,29 @@ ROWS = {
        'outcome tree (depth 5/8, budgets 1..6) on the real helpers with scripted callables; time.sleep recorded',
   tech='Lean 4 proof (induction on the budget / outcome stream) + translator + exhaustive outcome-tree correspondence'),
  'C14': dict(
-  text='Lean theorems over ALL schedules of an interleaving model of Rmcp.send_and_receive_raw / keep-alive under the '
-       'transaction lock: each caller gets its own reply, exchanges are not interleaved on the socket, session '
-       'sequence numbers are strictly increasing on the wire, no deadlock. The lock scope, the place of the packing '
-       'and of both sequence-number updates, and the keep-alive callable are re-read from the AST of rmcp.py / '
-       'session.py on every run (Gen/Threads.lean, theorem source_shape). The model\'s atomic steps are validated by '
-       'trace inclusion: real threads run under a deterministic scheduler (sys.settrace + scheduler-aware lock), '
-       'every schedule with <= 2..3 preemptions plus seeded random ones, each real trace must be accepted by the Lean monitor.',
-  note='translator harness/translate/threads.py; harness/sim/sched.py; granularity: source lines and shared-attribute accesses (bytecode-level switches inside a '
-       'line and GIL release in C calls are not exhibited) - partial with respect to the CPython runtime',
-  tech='Lean 4 proof (invariant over all schedules of a step relation) + AST translator of the lock/packing shape + trace-inclusion validation on really scheduled threads'),
+  text='19 Lean theorems over ALL schedules of an interleaving model of one Rmcp interface shared by any number of '
+       'application threads, its own keep-alive loop (call_repeatedly: the interval elapses any number of times at '
+       'any moment) and one thread that ends with close_session: each caller gets its own reply; exchanges are not '
+       'interleaved on the socket; session sequence numbers are strictly increasing over the whole wire log including '
+       'Close Session; nothing is transmitted after Close Session; mutual exclusion; no deadlock, including the '
+       'stopper\'s join; every maximal run ends with all calls made, Close Session last, the session deactivated and '
+       'the keep-alive thread terminated. The model has both variants of the stopper: as shipped (event.set only) a '
+       'concrete schedule is PROVED to put the keep-alive\'s Get Device ID after Close Session with a repeated '
+       'sequence number (defect found and fixed in /repo, cd1ae83); with the join the property is proved. Lock '
+       'scope, packing place, sequence-number updates, the `activated` guard, the keep-alive loop, what the stopper '
+       'does and the shape of close_session are re-read from the AST of rmcp.py / session.py on every run '
+       '(Gen/Threads.lean, theorem source_shape). The model\'s atomic steps are validated by trace inclusion: real '
+       'threads run the real call_repeatedly loop and close_session under a deterministic scheduler (scheduling '
+       'points at lock, socket, shared-attribute accesses, wake-up of Event.wait, Event.set, Thread.join, source '
+       'lines); every schedule with <= 2..3 preemptions plus seeded random ones; each real trace must be accepted by '
+       'the Lean model and the wire log by the Lean monitor.',
+  note='translator harness/translate/threads.py; harness/sim/sched.py (scheduler, Lock/Event/Thread stand-ins); '
+       'granularity: source lines and shared-attribute accesses (bytecode-level switches inside a line and GIL '
+       'release in C calls are not exhibited); Event.wait(interval) is a virtual timer whose wake-up is a scheduling '
+       'decision; exactly one thread closes, after the other application threads have finished; thread START timing '
+       'of call_repeatedly and establish_session (C06) are not explored; faults (late replies) only in the '
+       'failing-input search after a broken tie - partial with respect to the CPython runtime',
+  tech='Lean 4 proof (three inductive invariants over all schedules of a step relation, termination measure, counter-example by decide for the shipped stopper) + AST translator of the lock/packing/loop/stopper/close shape + trace-inclusion validation on really scheduled threads including stop timing'),
  'C15': dict(
   text='Lean theorems: parse(encode img) = img for every abstract FRU image (all areas, four text encodings, custom '
        'fields, multi-records incl. PICMG), acceptance implies all zero-sum checksums, hence any single alteration of '
